@@ -240,6 +240,20 @@ impl<C> Encode<C> for Nested {
     }
 }
 
+/// A record whose `Encode` impl annotates every error of its fields with `Error::with_message` (the documented way to add
+/// context): the kind of the error -- in particular "this is a write error" -- must survive the annotation.
+#[derive(Debug)]
+pub struct Annotated(pub u32, pub String);
+
+impl<C> Encode<C> for Annotated {
+    fn encode<W: Write>(&self, e: &mut Encoder<W>, ctx: &mut C) -> Result<(), encode::Error<W::Error>> {
+        e.array(2).map_err(|er| er.with_message("Annotated: header"))?;
+        self.0.encode(e, ctx).map_err(|er| er.with_message("Annotated: field 0"))?;
+        self.1.encode(e, ctx).map_err(|er| er.with_message(format!("Annotated: field 1 ({} bytes)", self.1.len())))?;
+        Ok(())
+    }
+}
+
 /// A value whose `Encode` impl writes `partial` bytes and then fails with a message error.
 #[derive(Debug, Clone, PartialEq)]
 pub struct FailEncode {
@@ -276,7 +290,7 @@ tys!(
     VecVecU8, BTreeMapU32Str, Duration, IpAddr, SocketAddr, IntTy, TaggedU32, Tokens, Point, MapRec, Gappy, Color,
     Shape, Wrapper, Borrowed, Tree, TaggedRec, EncOps, BoxStr, CowStr, RangeU32, BoundI16, Wrapping, CString, Path, Empty,
     ArrIterExact, ArrIterFilter, MapIterExact, MapIterFilter, BTreeSetU16, VecDequeStr, LinkedListU8, BinaryHeapI32, HashMapFixed,
-    HashSetFixed, SystemTime, CellU16, RefCellStr, NonZeroU32, AtomicI64, TagTy, SocketAddrV6, RangeInclusiveI8, Phantom, Slice, SelfDesc, Embedded, Nothing, Ticket, Nested,
+    HashSetFixed, SystemTime, CellU16, RefCellStr, NonZeroU32, AtomicI64, TagTy, SocketAddrV6, RangeInclusiveI8, Phantom, Slice, SelfDesc, Embedded, Nothing, Ticket, Nested, Annotated,
 );
 
 #[derive(Clone, Debug, PartialEq, Eq)]
@@ -390,6 +404,8 @@ pub struct RunShape {
     pub profile: u64,
     /// hand the object a recycled buffer far larger than any frame of the run
     pub roomy_init: Option<u32>,
+    /// positions at which a long run of small frames is interrupted by a much larger one (size spikes)
+    pub spikes: Vec<usize>,
 }
 
 pub fn gen_shape(r: &mut Rng, thorough: bool) -> RunShape {
@@ -408,7 +424,17 @@ pub fn gen_shape(r: &mut Rng, thorough: bool) -> RunShape {
     } as usize;
     let profile = if marathon || history { r.below(2) } else { r.below(4) };
     let roomy_init = if (history || big) && r.chance(1, 2) { Some(r.range(65_600, 200_000) as u32) } else { None };
-    RunShape { big, history, marathon, nframes, profile, roomy_init }
+    let mut spikes = Vec::new();
+    if (history || marathon) && r.chance(1, 2) {
+        for _ in 0..r.range(1, 4) {
+            spikes.push(r.below(nframes as u64) as usize);
+        }
+        if marathon && r.chance(1, 2) {
+            // around the 8-bit wrap of a per-object frame counter
+            spikes.push(254 + r.below(4) as usize);
+        }
+    }
+    RunShape { big, history, marathon, nframes, profile, roomy_init, spikes }
 }
 
 /// How often a fault lane is replayed: long histories get fault storms that last as long as the history does.
@@ -427,6 +453,9 @@ impl RunShape {
     pub fn size(&self, r: &mut Rng, idx: usize) -> u32 {
         if self.big {
             return if idx == 0 { gen_big_size(r) } else { r.below(30) as u32 };
+        }
+        if self.spikes.contains(&idx) {
+            return 64 + r.below(3000) as u32;
         }
         match self.profile {
             0 => r.below(4) as u32,
@@ -826,6 +855,7 @@ pub fn with_value<V: EncVisitor>(spec: &ValSpec, vis: V) -> V::Out {
         Ty::Empty => vis.visit(&EncOps(Vec::new())),
         Ty::Nothing => vis.visit(&Nothing),
         Ty::Nested => vis.visit(&Nested(gen_string(r, n))),
+        Ty::Annotated => vis.visit(&Annotated(boundary_u64(r) as u32, gen_string(r, n))),
         Ty::Ticket => {
             // bases right below a head-width boundary, so that "the next number" is one byte longer
             let base = *r.pick(&[23u64, 23, 255, 65_535, 0xffff_ffff, 5]) + if n % 4 == 3 { 1 } else { 0 };
